@@ -967,6 +967,15 @@ impl World {
                 set_clock(t);
                 Ok("ok".into())
             }
+            "dates" => {
+                // the real date_utils::date / date_next_day on one date (negative and unrepresentable ones included)
+                let t: i64 = kv.get("t").and_then(|v| v.parse().ok()).ok_or("bad-op")?;
+                self.case.as_ref().ok_or("bad-op")?;
+                let d = discret::verif_hooks::date_utils::date(t);
+                let n = discret::verif_hooks::date_utils::date_next_day(t);
+                let inrange = d <= t && t < n && n == d + 86400000;
+                Ok(format!("date={} next={} inrange={}", d, n, inrange))
+            }
             "new" | "upd" | "ref" | "unref" | "del" => self.write_op(kind, kv).await,
             "unrefs" => self.unrefs_op(kv).await,
             "begin" => {
